@@ -246,15 +246,29 @@ def rule_O9b_relaxed_marking(mod, rep):
         ph, pred, bound = lb
         if not same_val(gep_index(f, s.ops[1]), ["v", ph.i]):
             continue
-        # start = *bcol ; step = +1 ; bound = *bcol + size
+        # start = *bcol ; step = +1 ; bound = *bcol + size.  The two marking loops (relaxed / regular supernode) may be merged into one
+        # after the if/else: start and bound are then phis of the join block, and the clause is about the values coming from the relaxed branch
+        def alts(o):
+            o = strip_casts(f, o)
+            if o[0] == "v" and f.inst[o[1]].op == "phi" and f.inst[o[1]].bb.id != ph.bb.id:
+                q = f.inst[o[1]]
+                return [(b, strip_casts(f, x)) for x, b in zip(q.ops, q.inb)]
+            return [(None, o)]
         starts = [strip_casts(f, o) for o in ph.ops]
-        st_ok = any(o[0] == "v" and (("A", kb), ("*",)) in f.paths(o) and f.inst[o[1]].op == "load" for o in starts)
         step_ok = any(o[0] == "v" and f.inst[o[1]].op == "add" and any(is_const(x, 1) for x in f.inst[o[1]].ops) and any(same_val(strip_casts(f, x), ["v", ph.i]) for x in f.inst[o[1]].ops) for o in starts)
-        bv = strip_casts(f, bound)
-        b_ok = False
-        if bv[0] == "v" and f.inst[bv[1]].op == "add":
-            lds = [x for x in expr_insts(f, bv) if x.op == "load"]
-            b_ok = any(addr_has_field(f, x, "size", "pan_status_t") for x in lds) and any((("A", kb),) in f.addr_paths(x) for x in lds)
+        init = [o for o, b in zip(ph.ops, ph.inb) if b not in lp[1]]
+        st_ok = b_ok = False
+        for (bs, sv) in [a for o in init for a in alts(o)]:
+            if not (sv[0] == "v" and f.inst[sv[1]].op == "load" and (("A", kb), ("*",)) in f.paths(sv)):
+                continue
+            st_ok = True
+            for (bb_, bv) in alts(bound):
+                if bs is not None and bb_ is not None and bs != bb_:
+                    continue
+                if bv[0] == "v" and f.inst[bv[1]].op == "add":
+                    lds = [x for x in expr_insts(f, bv) if x.op == "load"]
+                    if any(addr_has_field(f, x, "size", "pan_status_t") for x in lds) and any((("A", kb),) in f.addr_paths(x) for x in lds):
+                        b_ok = True
         if st_ok and step_ok and b_ok and pred == "slt":
             ok = True
         elif st_ok and b_ok:
@@ -363,13 +377,39 @@ def rule_state_enum(mod, rep):
 
 # ------------------------------------------------------------------ O6
 
+_PNAMES = {}      # function name -> {param index: canonical array name bound at its call sites} (helpers extracted from the DFS routines)
+
+
+def _pname(f, k):
+    return _PNAMES.get(f.name, {}).get(k) or f.pname(k)
+
+
+def _bind_helper_names(mod, h):
+    """names of the arrays a static helper receives, resolved at its call sites (param of the caller -> its name, Glu field -> field name)"""
+    out = {}
+    for k in range(len(h.params)):
+        names = set()
+        for c in mod.callers.get(h.name, []):
+            g = c.fn
+            if k >= len(c.ops):
+                continue
+            for p in g.paths(c.ops[k]):
+                if len(p) == 1 and p[0][0] == "A":
+                    names.add(_pname(g, p[0][1]))
+                elif len(p) >= 2 and p[-1][0] == "*" and p[-2][0] == "f":
+                    names.add(p[-2][2])
+        if len(names) == 1:
+            out[k] = names.pop()
+    return out
+
+
 def _canon_index(f, o, depth=0):
     """canonical expression tree of an integer index value over (array field/param element loads, params, constants)"""
     o = strip_casts(f, o)
     if o[0] == "c":
         return ("k", o[1])
     if o[0] == "a":
-        return ("p", f.pname(o[1]))
+        return ("p", _pname(f, o[1]))
     if o[0] != "v" or depth > 8:
         return ("?",)
     ins = f.inst[o[1]]
@@ -382,7 +422,7 @@ def _canon_index(f, o, depth=0):
                 if q[-1][0] == "*" and len(q) >= 2 and q[-2][0] == "f":
                     arr = q[-2][2]
                 elif len(q) == 1 and q[0][0] == "A":
-                    arr = f.pname(q[0][1])
+                    arr = _pname(f, q[0][1])
             elif len(p) >= 2 and p[-1][0] == "*" and p[-2][0] == "f":
                 arr = p[-2][2]
         idx = gep_index(f, ins.ops[0])
@@ -404,12 +444,27 @@ def rule_O6_prune_dfs(mod, rep):
     writer (pxgstrf_pruneL) permutes lsub[] between the same begin and xprune."""
     rep.rule("O6", "every DFS site that reads a pruned adjacency list takes (begin,end) = (singleton ? xlsub_end[rep] : xlsub[rep], xprune[rep]) guarded by ispruned[rep]; "
              "unpruned reads take (xlsub[fsupc]+rep-fsupc+1, xlsub_end[fsupc]); pxgstrf_pruneL permutes lsub[] only inside the same begin..xprune range "
-             "and sets ispruned[] after xprune[]", floor=20)
-    readers = []
+             "and sets ispruned[] after xprune[]; every DFS routine has at least one such site (in itself or in a static helper)", floor=12)
+    base = []
     for pat in ("p?gstrf_panel_dfs", "p?gstrf_column_dfs"):
-        readers += [f for _, f in fam(mod, pat)]
+        base += [f for _, f in fam(mod, pat)]
     if "pxgstrf_super_bnd_dfs" in mod.funcs:
-        readers.append(mod.funcs["pxgstrf_super_bnd_dfs"])
+        base.append(mod.funcs["pxgstrf_super_bnd_dfs"])
+    # static helpers extracted from a DFS routine (called only from DFS routines) are readers too; their array parameters get the callers' names
+    readers = list(base)
+    owner = {f.name: f.name for f in base}
+    work = list(base)
+    while work:
+        g = work.pop()
+        for c in g.calls():
+            h = mod.funcs.get(c.callee or "")
+            if h is None or h.name in owner or not h.internal:
+                continue
+            if all(x.fn.name in owner for x in mod.callers.get(h.name, [])):
+                owner[h.name] = owner[g.name]
+                _PNAMES[h.name] = _bind_helper_names(mod, h)
+                readers.append(h); work.append(h)
+    sites_of = {f.name: 0 for f in base}
     for f in readers:
         rep.scope([f.name])
         # sites: branch on ispruned[rep] != 0
@@ -428,6 +483,7 @@ def rule_O6_prune_dfs(mod, rep):
                 continue
             rep_idx = arr[2]
             n += 1
+            sites_of[owner[f.name]] += 1
             key = "%s#pruned-site%d" % (f.name, n)
             edges = eq_edge(f, C)
             if not edges:
@@ -450,6 +506,9 @@ def rule_O6_prune_dfs(mod, rep):
                       "pruned list read through (singleton?xlsub_end:xlsub, xprune)[rep]; unpruned through (xlsub, xlsub_end)[fsupc]",
                       "DFS extent of a (un)pruned list deviates: pruned loads %s, unpruned loads %s, singleton-selects-end=%s" % (sorted(got_p), sorted(got_u), oks),
                       C.loc, f.name)
+    for nm, k in sorted(sites_of.items()):
+        if k == 0:
+            rep.brk("ANALYSIS-BROKEN O6: no pruned/unpruned selection site found in %s or its helpers" % nm)
     f = mod.funcs.get("pxgstrf_pruneL")
     if f is None:
         rep.brk("ANALYSIS-BROKEN O6: pxgstrf_pruneL not found")
